@@ -116,6 +116,17 @@ def make(n_notes, time_div, sub_num, opt, dmax=3):
             end_time = (last_abs + end_extra) / time_div
             if sub != 0:
                 require(kmin >= 1)  # keeps the sub-frame offset from moving min_time across a frame border
+            # number of columns with an explicit end: both margins plus the frames from the time origin of the roll
+            # (first onset when silence is removed, else 0 or the smallest negative onset) to end_time, rounded up.
+            # Exact in quarter frames: onsets are (4k + sub_num)/4 frames.
+            on4 = [4 * k + sub_num for (p, k, d, v) in notes]
+            m4 = on4[0]
+            for x in on4[1:]:
+                m4 = x if x < m4 else m4
+            if not remove_silence:
+                m4 = m4 if m4 < 0 else 0
+            frames4 = 4 * (last_abs + end_extra) - m4
+            Nx = 2 * tmargin * time_div + (frames4 + 3) // 4
         res = must_not_raise(M._make_pianoroll, arr, onset_only=onset_only, pitch_margin=pmargin,
                              time_margin=tmargin, time_div=time_div, note_separation=note_sep, return_idxs=True,
                              piano_range=piano_range, remove_silence=remove_silence, end_time=end_time,
